@@ -374,6 +374,116 @@ def _has_loop(d):
     return False
 
 
+def thread_bool_returns(f):
+    """After a predicate helper has been spliced in, its `return true` / `return false` paths meet in the join block
+    and the caller branches on the merged value: on the CFG every return then reaches both branches, and a guard
+    tested inside the helper no longer cuts anything off.  Thread the constant returns straight to the branch
+    they select (jump threading), when the merged value is used by that branch only.  Behaviour is unchanged."""
+    blocks = f['blocks']
+
+    def reads(local):
+        n = 0
+        def walk(x):
+            nonlocal n
+            if isinstance(x, dict):
+                if 'l' in x and isinstance(x.get('p'), list):
+                    if x['l'] == local:
+                        n += 1
+                    for q in x['p']:
+                        if q.get('k') == 'index' and q.get('l') == local:
+                            n += 1
+                    return
+                for v in x.values():
+                    walk(v)
+            elif isinstance(x, list):
+                for v in x:
+                    walk(v)
+        for b in blocks:
+            for st in b['st']:
+                if st['k'] == 'assign':
+                    walk(st['rv'])
+                    if st['pl']['p']:
+                        walk(st['pl'])
+                else:
+                    walk(st)
+            t = b['term']
+            if t['k'] == 'call':
+                walk(t['args'])
+            elif t['k'] == 'switch':
+                walk(t['d'])
+            elif t['k'] in ('drop',):
+                walk(t['pl'])
+            elif t['k'] == 'assert':
+                walk(t['c'])
+        return n
+
+    changed = False
+    for ji, J in enumerate(blocks):
+        if not J.get('inlined') or len(J['st']) != 1 or J['term']['k'] != 'goto':
+            continue
+        a = J['st'][0]
+        if a['k'] != 'assign' or a['pl']['p'] or a['rv']['k'] != 'use' or a['rv']['o']['k'] not in ('copy', 'move') or a['rv']['o']['pl']['p']:
+            continue
+        dest, ret = a['pl']['l'], a['rv']['o']['pl']['l']
+        if f['locals'][dest] != 'bool':
+            continue
+        N = blocks[J['term']['t']]
+        tn = N['term']
+        if tn['k'] != 'switch' or tn['d']['k'] not in ('copy', 'move') or tn['d']['pl']['p']:
+            continue
+        negated = False
+        if not N['st'] and tn['d']['pl']['l'] == dest:
+            pass
+        elif len(N['st']) == 1 and N['st'][0]['k'] == 'assign' and not N['st'][0]['pl']['p'] and N['st'][0]['rv']['k'] == 'unop' and N['st'][0]['rv']['op'] == 'Not' \
+                and N['st'][0]['rv']['a']['k'] in ('copy', 'move') and not N['st'][0]['rv']['a']['pl']['p'] and N['st'][0]['rv']['a']['pl']['l'] == dest \
+                and tn['d']['pl']['l'] == N['st'][0]['pl']['l'] and reads(N['st'][0]['pl']['l']) == 1:
+            negated = True     # if !helper(..)
+        else:
+            continue
+        if reads(dest) != 1 or reads(ret) != 1:
+            continue
+        targets = {str(v): b for v, b in tn['ts']}
+
+        def writes_ret(blk):
+            return any(st['k'] == 'assign' and st['pl']['l'] in (ret, dest) for st in blk['st'])
+
+        def chain_to_join(start):
+            """blocks from `start` to J through single-successor blocks (goto / drop) that do not touch ret"""
+            out, b = [], start
+            while b != ji:
+                blk = blocks[b]
+                if len(out) > 6 or blk['term']['k'] not in ('goto', 'drop') or writes_ret(blk):
+                    return None
+                out.append(b)
+                b = blk['term']['t']
+            return out
+        for pi in range(len(blocks)):
+            P = blocks[pi]
+            if P is J or P['term']['k'] != 'goto' or not P['st']:
+                continue
+            last = P['st'][-1]
+            if not (last['k'] == 'assign' and not last['pl']['p'] and last['pl']['l'] == ret and last['rv']['k'] == 'use' and last['rv']['o']['k'] == 'const'
+                    and last['rv']['o'].get('ty') == 'bool' and last['rv']['o'].get('int') is not None):
+                continue
+            chain = chain_to_join(P['term']['t'])
+            if chain is None:
+                continue
+            v = str(int(last['rv']['o']['int']) ^ (1 if negated else 0))
+            goal = targets.get(v, tn['o'])
+            # private copies of the blocks between the constant return and the join (temporaries dropped on the way)
+            nxt = goal
+            for b in reversed(chain):
+                cp = copy.deepcopy(blocks[b])
+                cp['term']['t'] = nxt
+                cp['threaded_copy'] = True
+                blocks.append(cp)
+                nxt = len(blocks) - 1
+            P['st'] = P['st'][:-1]
+            P['term'] = {'k': 'goto', 't': nxt, 'threaded': True}
+            changed = True
+    return changed
+
+
 def _fn_value_uses(d, key):
     """Does the body use `key` as a function value (not in call position)?"""
     found = []
